@@ -24,6 +24,8 @@ template <> struct R<std::wstring> { static Val f(const std::wstring& v) { retur
 template <> struct R<Color> { static Val f(const Color& v) { static const char* n[] = { "Red", "Green", "Blue", "Dark violet" }; return refmp::mkStr(n[static_cast<int>(v)]); } };
 template <> struct R<Pt> { static Val f(const Pt& v) { return refmp::mkMap({ { refmp::mkStr("x"), refmp::mkInt(v.x) }, { refmp::mkStr("y"), refmp::mkInt(v.y) } }); } };
 template <> struct R<External> { static Val f(const External& v) { return refmp::mkMap({ { refmp::mkStr("id"), refmp::mkInt(v.id) }, { refmp::mkStr("label"), mdl::to_ref(v.label) } }); } };
+template <> struct R<DerivedLate> { static Val f(const DerivedLate& v) { return refmp::mkMap({ { refmp::mkStr("first"), refmp::mkInt(v.first) }, { refmp::mkStr("baseId"), refmp::mkInt(v.baseId) }, { refmp::mkStr("baseName"), refmp::mkStr(v.baseName) }, { refmp::mkStr("last"), refmp::mkStr(v.last) } }); } };
+template <> struct R<TwoBases> { static Val f(const TwoBases& v) { return refmp::mkMap({ { refmp::mkStr("baseId"), refmp::mkInt(v.baseId) }, { refmp::mkStr("baseName"), refmp::mkStr(v.baseName) }, { refmp::mkStr("tag"), refmp::mkInt(v.tag) }, { refmp::mkStr("flag"), refmp::mkBool(v.flag) } }); } };
 template <> struct R<Derived> { static Val f(const Derived& v) {
 	std::vector<std::pair<Val, Val>> m = { { refmp::mkStr("baseId"), refmp::mkInt(v.baseId) }, { refmp::mkStr("baseName"), refmp::mkStr(v.baseName) }, { refmp::mkStr("ratio"), refmp::mkF64(v.ratio) }, { refmp::mkStr("items"), mdl::to_ref(v.items) }, { refmp::mkStr("hasExtra"), refmp::mkBool(v.hasExtra) } };
 	if (v.hasExtra) m.push_back({ refmp::mkStr("extra"), refmp::mkInt(v.extra) });
